@@ -1,6 +1,8 @@
 """A9/A10 — provenance tables: every assignment to a designated state field must have one of the expected normal forms."""
 from mir import canon
 from lib import place_fields, _place_ends_in_field, in_crate
+import os
+FLOW = not os.environ.get('VERIF_FLOW_INSENSITIVE')   # use-site (reaching definitions) expansion of reassigned locals
 
 
 def field_assignments(ctx, adt, field, prefix='server::'):
@@ -23,10 +25,10 @@ def field_assignments(ctx, adt, field, prefix='server::'):
             continue
         b = ctx.body(d)
         for bb in sorted(b.reach):
-            for s in b.stmts(bb):
+            for si, s in enumerate(b.stmts(bb)):
                 lhs = s.get('lhs')
                 if lhs is not None and len(lhs) > 1 and _place_ends_in_field(lhs, adt, field):
-                    rhs = b._pexpr_rvalue(s['rv'], 0, frozenset())
+                    rhs = b._pexpr_rvalue(s['rv'], 0, frozenset(), (bb, si) if FLOW else None)
                     out.append((ctx.user_fn_of(d), b, bb, s.get('ln'), canon(rhs)))
     return out
 
@@ -84,7 +86,7 @@ def call_arg_forms(ctx, fn, callee_suffix, skip_self=True, cd=1):
             if c.x.startswith('m:') or not (c.name.endswith('::' + callee_suffix) or c.name == callee_suffix):
                 continue
             args = c.args[1:] if skip_self else c.args
-            out.append((c.ln, ', '.join(canon(b.pexpr_operand(a), 0, cd) for a in args), b))
+            out.append((c.ln, ', '.join(canon(b.pexpr_operand(a, 0, frozenset(), (c.bb, 't') if FLOW else None), 0, cd) for a in args), b))
     return out
 
 
@@ -118,10 +120,10 @@ def aggregate_forms(ctx, fn, adt):
     for d in sorted(defs):
         b = ctx.body(d)
         for blk in sorted(b.reach):
-            for s in b.stmts(blk):
+            for si, s in enumerate(b.stmts(blk)):
                 rv = s.get('rv')
                 if rv and rv['r'] == 'agg' and rv.get('kind') == 'adt' and rv['adt'] == adt and not s.get('x', '').startswith('m:'):
-                    e = b._pexpr_rvalue(rv, 0, frozenset())
+                    e = b._pexpr_rvalue(rv, 0, frozenset(), (blk, si) if FLOW else None)
                     out.append(({n: canon(v, 0, 2) for n, v in e[3]}, '%s:%s' % (b.file, s.get('ln'))))
     return out
 
